@@ -28,7 +28,8 @@ ASSUMPTIONS = [
 ]
 FLOORS = {
     "quick": {"build_vs_reference": 20000, "parse_roundtrip": 20000, "datagrams": 1500,
-              "datagram_messages": 5000, "type_code_pairs": 110, "datagrams_after_a_malformed_one": 300, "datagrams_repeated_verbatim": 300},
+              "datagram_messages": 5000, "type_code_pairs": 110, "datagrams_after_a_malformed_one": 300, "datagrams_repeated_verbatim": 300,
+              "datagrams_received_with_debug_logging_on": 600, "datagrams_received_with_debug_logging_off": 600},
     "thorough": {"build_vs_reference": 1000000, "parse_roundtrip": 1000000, "datagrams": 50000,
                  "type_code_pairs": 110},
 }
@@ -140,7 +141,13 @@ class _Endpoint:
         self.p = P()
 
 
-def check_datagram(S, H, msgs, multicast, ctx, endpoint=None, noise=None, repeat=0):
+def check_datagram(S, H, msgs, multicast, ctx, endpoint=None, noise=None, repeat=0, debug=None):
+    from pv import vloop
+
+    # every other datagram is received while the library's loggers are enabled for DEBUG
+    vloop.install_logging()
+    debug = vloop.rotate_loglevel() if debug is None else vloop.set_loglevel(debug)
+    ctx.count("datagrams_received_with_debug_logging_on" if debug else "datagrams_received_with_debug_logging_off")
     ep = endpoint or _Endpoint(S)
     if noise is not None:
         # a datagram whose tail is not a message (valid leading messages, then garbage / a truncated message), from another
@@ -173,7 +180,7 @@ def check_datagram(S, H, msgs, multicast, ctx, endpoint=None, noise=None, repeat
                       dict(expected=len(msgs), delivered=len(got),
                            delivered_ids=[(g[0].service_id, g[0].method_id, g[0].session_id) for g in got][:12],
                            expected_ids=[(m["sid"], m["mid"], m["sess"]) for m in msgs][:12]),
-                      dict(kind="dgram", msgs=msgs[: len(msgs) // (repeat + 1)], multicast=multicast, noise=noise, repeat=repeat))
+                      dict(kind="dgram", msgs=msgs[: len(msgs) // (repeat + 1)], multicast=multicast, noise=noise, repeat=repeat, debug=debug))
     return ok
 
 
@@ -272,5 +279,5 @@ def replay(doc, ctx):
     if doc["kind"] == "msg":
         check_message(H, doc["msg"], doc["suffix"], ctx)
     else:
-        check_datagram(S, H, doc["msgs"], doc["multicast"], ctx, None, doc.get("noise"), doc.get("repeat", 0))
+        check_datagram(S, H, doc["msgs"], doc["multicast"], ctx, None, doc.get("noise"), doc.get("repeat", 0), doc.get("debug"))
     ctx.case(("replay",), True)
